@@ -356,7 +356,7 @@ func init() {
 			jmax := 4
 			if !c.Quick() {
 				xplans = []xplan{{1, full, true}, {2, full, true}, {3, full, true}, {4, full, true}, {5, red, true},
-					{1, full, false}, {2, full, false}, {3, full, false}, {4, full, false}, {5, red, false}}
+					{1, full, false}, {2, full, false}, {3, full, false}, {4, red, false}}
 				jmax = 5
 			}
 			idx := 0
